@@ -61,6 +61,8 @@ def iter_kinds(fn: ast.FunctionDef) -> List[str]:
             out.add(n.iter.func.id)
         if isinstance(n, (ast.Assign, ast.AnnAssign)) and isinstance(getattr(n, "value", None), ast.ListComp):
             out.add("listcomp")
+        if isinstance(n, ast.For) and isinstance(n.target, ast.Tuple) and not isinstance(n.iter, ast.Call):
+            out.add("tuple-target")
     return sorted(out)
 
 
@@ -124,6 +126,17 @@ def loop_shapes(fn: ast.FunctionDef, ref_kinds: List[str], ref_bool: List[str]) 
                                 ast.copy_location(y, st)
                     lst[i:i + 1] = [init, loop]
                     continue  # re-examine (the new loop may iterate over map(..))
+                # (t) `for a, b, c in L` over a plain container -> `for _t in L` with a, b, c read as _t[0], _t[1], _t[2]
+                if isinstance(st, ast.For) and "tuple-target" not in ref_kinds and isinstance(st.target, ast.Tuple) and isinstance(st.iter, (ast.Name, ast.Attribute)) \
+                        and all(isinstance(e, ast.Name) for e in st.target.elts):
+                    names_ = [e.id for e in st.target.elts]
+                    later = _all_names(ast.Module(body=lst[i + 1:], type_ignores=[]))
+                    if not (set(names_) & _stored(st.body)) and not (set(names_) & later) and len(set(names_)) == len(names_):
+                        tv = _fresh("_t", taken)
+                        st.body = _subst(st.body, {n_: ast.Subscript(value=ast.Name(tv, ast.Load()), slice=ast.Constant(k_), ctx=ast.Load()) for k_, n_ in enumerate(names_)})
+                        st.target = ast.copy_location(ast.Name(tv, ast.Store()), st)
+                        ast.fix_missing_locations(st)
+                        continue
                 if isinstance(st, ast.For) and isinstance(st.iter, ast.Call) and isinstance(st.iter.func, ast.Name) and not st.iter.keywords:
                     f, args = st.iter.func.id, st.iter.args
                     # (x') map
@@ -782,9 +795,20 @@ def unmerge_aliases(fn: ast.FunctionDef, want: List[str]) -> None:
                     vals = {ast.dump(v) for m in arms for v in m.values() if not isinstance(v, ast.Constant)}
                     if any(isinstance(x, (ast.Attribute, ast.Name)) and isinstance(x.ctx, ast.Store) and ast.dump(x).replace("Store()", "Load()") in vals for s_ in rest for x in ast.walk(s_)):
                         continue
-                    new = ast.If(test=st.test, body=_subst(copy.deepcopy(rest), arms[0]), orelse=_subst(copy.deepcopy(rest), arms[1]))
+                    # only as far as the aliases are used (plus a short tail, which the reference usually has inside the arms as well): the statements
+                    # behind that do not depend on the selection and stay where they are
+                    last_use = max((k_ for k_, s_ in enumerate(rest) if any(isinstance(x, ast.Name) and x.id in names for x in ast.walk(s_))), default=-1)
+                    if last_use < 0:
+                        continue
+                    has_exit = any(isinstance(x, (ast.Return, ast.Raise)) for s_ in rest[:last_use + 1] for x in ast.walk(s_))
+                    cut = len(rest) if has_exit and len(rest) - (last_use + 1) <= 2 else last_use + 1
+                    moved, kept = rest[:cut], rest[cut:]
+                    new = ast.If(test=st.test, body=_subst(copy.deepcopy(moved), arms[0]), orelse=_subst(copy.deepcopy(moved), arms[1]))
                     ast.copy_location(new, st)
-                    lst[i:] = [new]
+                    ast.fix_missing_locations(new)
+                    from .canon import _Canon
+                    new = _Canon().visit_If(new)
+                    lst[i:] = [new] + kept
                     ast.fix_missing_locations(new)
                     done = True
                     break
